@@ -287,7 +287,7 @@ inline KCase genCase(const GenOpt& o)
   int nt = G::sz(1, 6);
 
   // geometry
-  c.L = (c.order == 2) ? G::pick<double>({1., 1., 100.}) : G::pick<double>({1., 1., 100., 100., 1e4});
+  c.L = (c.order == 2) ? G::pick<double>({1., 1., 1., 100.}) : (c.order == 1 ? G::pick<double>({1., 1., 100., 100., 1e4}) : G::pick<double>({1., 1., 100., 100., 1e4}));
   vfgeo::Lattice lat;
   std::vector<Points> sets = vfgeo::genPointSets(c.ndim, {n, o.blockMode ? 0 : nt}, G::pct(30), true, c.L, &lat);
   std::vector<double> org((size_t)c.ndim);
